@@ -248,6 +248,60 @@ fn bits_case<S: Setup>(x: u64, class: &str, n: usize, k: u64, use_bits: u32, non
     }
 }
 
+/// The same value decomposed twice on one builder, wide first, then at a width it does not fit:
+/// no hint is swapped; the second decomposition has no valid witness at all, so the honest run must
+/// fail or the trace must be unprovable. (A builder that reuses the first decomposition's bits for
+/// the second one would accept a truncated "decomposition".)
+fn redecompose_case<S: Setup>(x: u64, wide: usize, narrow: usize) -> CaseResult {
+    let key = format!("{}:bits:redecompose:x{x}:w{wide}:n{narrow}", S::NAME);
+    if narrow >= 64 || (x >> narrow) == 0 || wide > limb_bits::<S>() || narrow >= wide {
+        return CaseResult::held(key, false).count("bits/redecompose-not-applicable", 1);
+    }
+    let mut b = CircuitBuilder::<S::E>::new();
+    let xin = b.public_input();
+    let Ok(bits_w) = b.decompose_to_bits::<S::B>(xin, wide) else {
+        return CaseResult::held(key, false).count("bits/builder-rejected-width", 1);
+    };
+    let Ok(bits_n) = b.decompose_to_bits::<S::B>(xin, narrow) else {
+        return CaseResult::held(key, false).count("bits/builder-rejected-width", 1);
+    };
+    let c7 = b.define_const(S::el(&[7]));
+    let r = b.reconstruct_index_from_bits::<S::B>(&bits_n).unwrap();
+    let m = b.mul(r, c7);
+    let w0 = b.mul(bits_w[0], c7);
+    let s = b.add(m, w0);
+    let out = b.public_input();
+    b.connect(s, out);
+    let Ok(circuit) = b.build() else {
+        return CaseResult::inconclusive(key, "build failed");
+    };
+    // what a builder that truncates the wide decomposition would compute
+    let low = x & ((1u64 << narrow) - 1);
+    let out_val = S::el(&[low]) * S::el(&[7]) + S::el(&[x & 1]) * S::el(&[7]);
+    let packing = TablePacking::default();
+    let cpd = match guarded(|| S::prep_x(&circuit, &packing, ConstraintProfile::Standard, false)) {
+        Ok(Ok(c)) => c,
+        _ => return CaseResult::held(key, true).count("bits/redecompose/rejected-by-key-generation", 1),
+    };
+    let mut runner = circuit.runner();
+    let traces = match runner.set_public_inputs(&[S::el(&[x]), out_val]).and_then(|_| runner.run()) {
+        Ok(t) => t,
+        Err(_) => return CaseResult::held(key, true).count("bits/redecompose/rejected-by-run", 1),
+    };
+    let prover = S::prover_x(packing, false, false);
+    match guarded(|| S::prove(&prover, &traces, &cpd)) {
+        Ok(Ok(proof)) => match guarded(|| S::verify(&prover, &proof)) {
+            Ok(Ok(())) => CaseResult::violated(
+                key,
+                "noncanonical-accepted/bits/redecomposition-at-narrower-width",
+                json!({"setup": S::NAME, "gadget": "decompose_to_bits-twice", "x": x, "wide": wide, "narrow": narrow}),
+            ),
+            _ => CaseResult::held(key, true).count("bits/redecompose/rejected-by-verifier", 1),
+        },
+        _ => CaseResult::held(key, true).count("bits/redecompose/rejected-by-prover", 1),
+    }
+}
+
 /// decompose_ext_to_base_coeffs(x) with mass moved between coefficients.
 /// `consume`: 0 = the coefficients feed ALU rows; 1 = they are re-packed in rotated order by a second
 /// recomposition (what the challenger does at a misaligned rate offset), whose result feeds an ALU row.
@@ -371,6 +425,13 @@ fn case<S: Setup>(seed: u64, idx: usize, _tier: Tier) -> Vec<CaseResult> {
         } else {
             None
         };
+        if idx % 6 == 0 {
+            // directed: wide decomposition first, then one at a width the value does not fit
+            let xv = 256 + rng.random::<u64>() % 100_000;
+            let need_x = 64 - xv.leading_zeros() as usize;
+            let narrow = rng.random_range(1..need_x);
+            out.push(redecompose_case::<S>(xv, w, narrow));
+        }
         let use_bits = rng.random_range(0..3);
         let r = bits_case::<S>(x, class, n, k, use_bits, nonbool, false, 0);
         if nonbool.is_some() {
@@ -397,6 +458,9 @@ fn case<S: Setup>(seed: u64, idx: usize, _tier: Tier) -> Vec<CaseResult> {
 
 fn replay(d: &Value) -> Vec<CaseResult> {
     fn go<S: Setup>(d: &Value) -> Vec<CaseResult> {
+        if d["gadget"] == "decompose_to_bits-twice" {
+            return vec![redecompose_case::<S>(d["x"].as_u64().unwrap(), d["wide"].as_u64().unwrap() as usize, d["narrow"].as_u64().unwrap() as usize)];
+        }
         if d["gadget"] == "decompose_to_bits" {
             vec![bits_case::<S>(
                 d["x"].as_u64().unwrap(),
